@@ -22,16 +22,10 @@ func ConstantTimeCmp(a, b []byte, l int) int {
 		diff |= d
 	}
 
-	if borrow == 0 {
-		//a >= b
-		if diff != 0 {
-			return 1
-		} else {
-			return 0
-		}
-	}
-
-	return -1
+	// branch-free result, so that the executed path does not depend on the (possibly secret) operands:
+	// nz = 1 iff some byte differed; borrow = 1 iff a < b
+	nz := (diff | -diff) >> 31
+	return int(nz&(1-borrow)) - int(borrow)
 }
 
 // DecomposeNAF decomposes n-bit big endian integer s into w-NAF in LE
